@@ -78,7 +78,7 @@ class RootSlicer:
             self.objectSentDeferred.callback(None)
             self.objectSentDeferred = None
         if self.sendQueue:
-            (obj, self.objectSentDeferred) = self.sendQueue.pop()
+            (obj, self.objectSentDeferred) = self.sendQueue.pop(0)
             self.streamable = self.streamableInGeneral
             return obj
         if self.protocol.debugSend:
